@@ -1163,6 +1163,19 @@ fn try_read(fd: RawFd, buf: &mut [u8]) -> nix::Result<Option<usize>> {
         value: Duration::from_millis(10),
     };
     helpers::set_interval_timer(IntervalTimer::Real, &INTERVAL_VALUE)?; // emergency fallback
+    #[cfg(feature = "verif-hooks")]
+    if crate::verif::active() {
+        // Under the scheduler only one process runs at a time, so the token cannot be stolen
+        // between the zero-timeout select above and the read below; re-arm the emergency alarm
+        // far in the future so that machine load never decides the outcome of the read.
+        helpers::set_interval_timer(
+            IntervalTimer::Real,
+            &IntervalTimerValue {
+                interval: Duration::from_secs(60),
+                value: Duration::from_secs(60),
+            },
+        )?;
+    }
     let result = match unistd::read(fd, buf) {
         Ok(n) => Ok(Some(n)),
         Err(Errno::EINTR) | Err(Errno::EAGAIN) => Ok(None),
